@@ -571,6 +571,10 @@ func WithDirectConnectTicks(t uint64) Option {
 		if !ok {
 			return fmt.Errorf("pubsub router is not gossipsub")
 		}
+		// the heartbeat uses the tick count as a divisor
+		if t == 0 {
+			return fmt.Errorf("direct connect ticks must be positive")
+		}
 		gs.params.DirectConnectTicks = t
 		return nil
 	}
